@@ -59,4 +59,5 @@ def main(tier):
     chk.run("R-PARAMCOPY", B.paramcopy, cx.repo, cx.templates, floor=3)
     chk.run("R-LOOPACC", FLW.loopacc, cx.repo, floor=10, modules=("compiler/back_end/cpp/header_generator.py",))
     chk.run("R-VIRTOK", B.virtok, cx.repo, floor=2)
+    chk.run("R-ARRAYOK", WN.arrayok, cx.cpp, floor=2)
     return chk.finish()
